@@ -10,6 +10,7 @@
 (* albefa*shift, x - move*dx, xmin), beta = min(upp - albefa*shift, x +     *)
 (* move*dx, xmax); xold2' = xold1, xold1' = x.  OC: x' = clip(candidate,    *)
 (* max(xmin, x - move), min(xmax, x + move)).                               *)
+(* EmitSetup prints every case for replay on the real MMA.mmasub.           *)
 (* Declarative (C10 / C17): the asymptotes strictly enclose the admissible  *)
 (* interval, which lies in [xmin, xmax], contains x and respects the move   *)
 (* limit; bounds given per signal or per variable expand to the             *)
@@ -58,6 +59,13 @@ Enclosure ==
     /\ QLess(s.low, s.alfa) /\ QLeq(s.alfa, st.x) /\ QLeq(st.x, s.beta) /\ QLess(s.beta, s.upp)
     /\ QLeq(st.xmin, s.alfa) /\ QLeq(s.beta, st.xmax)
     /\ QLeq(QSub(s.beta, st.x), mvd) /\ QLeq(QSub(st.x, s.alfa), mvd)
+
+(* one case of the sub-problem set-up for replay on MMA.mmasub: the state before the call and what the call must produce *)
+EmitSetup ==
+  phase = "eval" =>
+    LET off2 == IF st.first THEN st.off ELSE OffsetUpdate(st.off, st.x, st.xo1, st.xo2)
+        s == SubSetup(st.x, off2, st.xmin, st.xmax, st.albefa, st.move) IN
+    PrintT(<<"SETUP", ToJson([st |-> st, off2 |-> off2, low |-> s.low, upp |-> s.upp, alfa |-> s.alfa, beta |-> s.beta])>>)
 
 (* OC: any candidate value is clipped into the admissible interval, which is non-empty and within the bounds *)
 OCStep ==
